@@ -30,7 +30,7 @@ ASSUMPTIONS = [
     "non-constant values",
 ]
 OBLIGATIONS = {"lhs": 50, "lhs:n=1": 3, "lhs:narrow-range": 5, "lhs:scalar-pmax": 5, "ppos": 50,
-               "stdnorm:ties": 20, "stdnorm:noties": 20, "stdnorm:reject-nan": 10,
+               "stdnorm:ties": 20, "stdnorm:noties": 20, "stdnorm:reject-nan": 10, "stdnorm:sorted-with-ties": 5,
                "pareto:complete": 30, "pareto:nan": 30, "pareto:ties": 30,
                "pareto:n<=1": 5, "box:nan-inf": 30, "box:lt4": 10, "box:constant": 5,
                "box:by": 20, "violin": 20, "violin:inf": 5, "violin:constant": 3,
@@ -154,6 +154,8 @@ def run_stdnorm_case(ctx, case):
         return
     ties = len(np.unique(x)) < len(x)
     ctx.tag("stdnorm:ties" if ties else "stdnorm:noties")
+    if ties and len(x) >= 2 and bool(np.all(np.diff(x) >= 0)):
+        ctx.tag("stdnorm:sorted-with-ties")
     ctx.api("standard_normal")
     u, ranks = su.standard_normal(x.copy(), cst)
     u = np.asarray(u, dtype=float)
@@ -505,6 +507,12 @@ def run(ctx):
         x = gen_column(rng, m, it % 5)
         if it % 5 == 2:
             x = rng.permutation(np.arange(m)).astype(float)
+        if it % 7 == 3:
+            x = np.sort(np.round(x))             # already sorted, with ties
+        elif it % 7 == 4:
+            x = np.full(m, float(rng.integers(-3, 4)))   # constant
+        elif it % 7 == 5:
+            x = np.sort(np.round(x))[::-1].copy()        # descending with ties
         if it % 6 == 5:
             x[int(rng.integers(0, m))] = np.nan
         run_stdnorm_case(ctx, {"kind": "stdnorm", "x": x,
